@@ -78,6 +78,28 @@ fn main() {
           }
         }
       }
+      // --bodycuts: every command frame kind a role can be sent, with its body ending after 0, 1, 2, ... bytes
+      if args.iter().any(|a| a == "--bodycuts") {
+        let mut seen = std::collections::HashSet::new();
+        for (i, b) in beh.iter().enumerate() {
+          let impls: Vec<h::eng::EncImpl> = if b.cfg.mech == "ENC" { vec![h::eng::EncImpl::Curve, h::eng::EncImpl::Noise] } else { vec![h::eng::EncImpl::Noise] };
+          for e in impls {
+            for (si, label, blen) in h::script::command_tokens(b, e, seed) {
+              let key = format!("{:?}|{}|{}|{}|{}", e, b.cfg.mech, b.cfg.srv, b.cfg.allow_v2, label);
+              if !seen.insert(key) {
+                continue;
+              }
+              for k in 0..blen.min(400) {
+                let o = h::script::run_cut(i, b, e, seed, true, false, expand, Some((si, k)));
+                mutated_runs += 1;
+                if o.issues.iter().any(|x| x.class == "prop") {
+                  outs.push(serde_json::to_value(&o).unwrap());
+                }
+              }
+            }
+          }
+        }
+      }
       h::util::write_json(&args[3], &json!({"behaviours": beh.len(), "runs": runs, "mutated_runs": mutated_runs, "with_issues": outs.len(), "outcomes": outs.into_iter().take(300).collect::<Vec<_>>()}));
     }
     "segment" => {
